@@ -4,7 +4,7 @@
 use similari::prelude::*;
 use similari::track::utils::FromVec;
 use similari::track::Track;
-use similari::trackers::batch::PredictionBatchRequest;
+use similari::trackers::batch::{PredictionBatchRequest, PredictionBatchResult};
 use similari::trackers::kalman_prediction::TrackAttributesKalmanPrediction;
 use similari::trackers::sort::batch_api::BatchSort as BSortT;
 use similari::trackers::sort::metric::SortMetric;
@@ -452,6 +452,33 @@ impl AnyTrk {
                 assert_eq!(r.len(), 1, "one scene submitted, {} results", r.len());
                 r.pop().unwrap().1
             }
+        }
+    }
+
+    /// submit a batch to a batch tracker and return the result handle without retrieving anything
+    pub fn submit_batch(&mut self, batch: &[(u64, Vec<Det>)]) -> PredictionBatchResult {
+        match self {
+            AnyTrk::BSort(t) => {
+                let (mut req, res) = PredictionBatchRequest::<(Universal2DBox, Option<i64>)>::new();
+                for (s, ds) in batch {
+                    for d in ds {
+                        req.add(*s, (d.bbox.clone(), d.custom_id));
+                    }
+                }
+                t.predict(req);
+                res
+            }
+            AnyTrk::BVSort(t) => {
+                let (mut req, res) = PredictionBatchRequest::<VisualSortObservation>::new();
+                for (s, ds) in batch {
+                    for d in ds {
+                        req.add(*s, VisualSortObservation::new(d.feature.as_deref(), d.quality, d.bbox.clone(), d.custom_id));
+                    }
+                }
+                t.predict(req);
+                res
+            }
+            _ => unreachable!("submit_batch on a simple tracker"),
         }
     }
 
